@@ -137,6 +137,3 @@ P("C20", [f"{UT}:binnify._each", f"{UT}:get_binsize", f"{UT}:get_chromsizes"], "
   unverified=["binnify's concat over chromosomes / Categorical", "cli.makebins", "parse_bins"])
 
 NOT_APPLICABLE = {}
-for _pid in ("C05", "C13", "C10", "C11"):
-    _P = PLAN.pop(_pid)
-    NOT_APPLICABLE[_pid] = "not claimed yet: the check for this property is still being built (planned per DESIGN.md section 3)"
